@@ -250,6 +250,8 @@ func init() {
 		// "positioned inside a non-excluded file": which files are excluded
 		c.ruleSkipShape()
 		c.ruleOneFilter()
+		// ... by the configuration the command line gives: each setting is the value of its flag
+		c.only([]string{"FLAG-VALUE"}, func() { c.ruleFlagTable() })
 		c.ruleMainExit()
 		c.ruleHierarchy()
 	}, Explanation: "The 16 code constants, CodesByCategory (each code once under its own category), the documented code tables and the URL switch (each category -> an existing page that is the category's documentation page) agree; every report site carries a documented code of its analyzer's category and every code has a site; one report sink, in which the same GetCode()/GetPos() feed the ignore lookup, the `[code] message` header, the help URL and the diagnostic position; positions come from nodes (or annotations) of filtered files; main hands all eight analyzers to multichecker.Main and nothing else terminates the process."})
@@ -294,6 +296,7 @@ func init() {
 		c.ruleMapOrder()
 		c.ruleMapIterators()
 		c.ruleSyntaxReadOnly()
+		c.ruleSharedSliceMutation()
 		c.ruleNoNondet()
 		c.ruleConfigWiring()
 		// "identical across repeated runs" under go vet: facts cached for one environment are not used under another
@@ -325,7 +328,11 @@ func init() {
 		// the imports of the annotation's own file only, and the node after a stand-alone @ignore is the first
 		// node, not a comment group attached to it
 		c.only([]string{"IMPORTS-PER-FILE"}, func() { c.ruleQueries() })
-		c.only([]string{"SCOPE-END/FIRST-NODE"}, func() { c.scopeNextNode() })
+		c.only([]string{"SCOPE-END", "FLOOR"}, func() { c.scopeNextNode() })
+		// inserting a blank line or an ordinary comment: which of the four placements an @ignore comment has is decided
+		// by positions (before the package clause / code on its line / alone), not by which declaration the parser
+		// attached its comment group to
+		c.only([]string{"SCOPE/"}, func() { c.ruleIgnoreScope() })
 		// gofmt sorts the specs of an import block: which import a qualifier names must not depend on their order
 		c.only([]string{"=RESOLVE-ORDER"}, func() { c.ruleImportResolution() })
 		// in which file of its package an annotated declaration stands decides the order in which the containers are
@@ -340,6 +347,9 @@ func init() {
 		c.only([]string{"INDEX-SRC/UNIFORM"}, func() {
 			c.ruleIndexSrc()
 		})
+		// ... nor on how the package that declares it is imported (by name, renamed, dot, blank): the annotations of
+		// every direct import with a fact are merged
+		c.only([]string{"ITER-PACKAGES/IMPORTS"}, func() { c.ruleIterPackages() })
 		// no file or declaration is skipped on the strength of how it spells things (its import list, its syntax)
 		c.ruleWalkRoot("immutable", "constructor", "testonly", "packageonly")
 		// a reference is found whether it is written pkg.T, T (dot import, local alias) or as an embedded field: the
